@@ -58,15 +58,19 @@ def make_function(n, kinds, out):
 def expected(coef, values, mapped, layout):
     """values: name -> scalar or 1d array; mapped (ordered list of lists): axis groups."""
     # each group of jointly mapped names forms one axis
-    shape = [len(values[g[0]]) for g in layout]
+    vec = values.get("__vec__")
+    shape = [len(values[g[0]]) for g in layout] + ([7] if vec else [])
+    nd = len(shape)
     tot = np.zeros(shape)
     for x, c in coef.items():
         v = np.asarray(values[x], dtype=float)
         gi = [i for i, g in enumerate(layout) if x in g]
         if gi:
-            sh = [1] * len(layout)
+            sh = [1] * nd
             sh[gi[0]] = len(v)
             tot = tot + c * v.reshape(sh)
+        elif x == vec:
+            tot = tot + c * v.reshape([1] * (nd - 1) + [7])
         else:
             tot = tot + c * v
     return tot
@@ -126,13 +130,19 @@ def run_case(case):
     def values_for(mapped_groups):
         vals = {}
         flat = [x for g in mapped_groups for x in g]
+        unmapped = [x for x in names if x not in flat]
+        vec = str(rng.choice(unmapped)) if unmapped and rng.random() < 0.3 else None
         for x in names:
             if x in flat:
                 g = [g for g in mapped_groups if x in g][0]
                 L = int(lens[g[0]])
                 vals[x] = np.round(rng.uniform(-3, 3, L), 3)
+            elif x == vec:
+                # an unmapped ARRAY argument is passed through: every entry of the result is a vector
+                vals[x] = np.round(rng.uniform(-3, 3, 7), 3)
             else:
                 vals[x] = float(np.round(rng.uniform(-3, 3), 3))
+        vals["__vec__"] = vec
         return vals
 
     def call_kw(fn, vals):
